@@ -48,6 +48,10 @@ func importLogs(w http.ResponseWriter, r *http.Request) {
 				api.NoContent(w)
 				return
 			} else {
+				// end the import goroutine before answering: left parked on the stream it would
+				// keep its connection and the ledger lock for ever
+				close(stream)
+				<-errChan
 				// the stream is client input: a document that cannot be decoded is a bad request
 				api.BadRequest(w, common.ErrValidation, fmt.Errorf("reading input stream: %w", err))
 				return
@@ -57,6 +61,8 @@ func importLogs(w http.ResponseWriter, r *http.Request) {
 		select {
 		case stream <- l:
 		case <-r.Context().Done():
+			close(stream)
+			<-errChan
 			common.InternalServerError(w, r, fmt.Errorf("request context done: %w", r.Context().Err()))
 			return
 		case err := <-errChan:
